@@ -344,7 +344,7 @@ pub fn check_def() -> PropertyCheck {
     id: "C07",
     scenarios: vec![Box::new(C07), Box::new(C07Feedback), Box::new(C07Threads)],
     runs: (300_000, 30_000_000),
-    rule: "case = operator (observe_on, delay d, delay_at, delay_subscription(_at), subscribe_on; local and _threads; d in {0,1,5,20}ms and 1-2 s, one case in fifteen 2^32 us / 2^32 ms / 2^32 s / 2^64 ns longer; instants before/at/after now) x hot timed source | cold source x executor policy (FIFO queue | any ready task may run next) x script of emit/complete/error/run-task-#k/advance/jump, then quiescence under the same policy; non-trivial = a run decision had >=2 ready tasks or the clock jumped over >=2 deadlines; thread case = observe_on_threads / delay_threads over a hot source driven by an emitting thread (<=6 emits / sleeps, then complete / error / nothing) against one pool worker that takes ready tasks in wake order, under a seeded lock-level schedule",
+    rule: "case = operator (observe_on, delay d, delay_at, delay_subscription(_at), subscribe_on; local and _threads; d in {0,1,5,20}ms and 1-2 s, one case in fifteen 2^32 us / 2^32 ms / 2^32 s / 2^64 ns longer; instants before/at/after now) x hot timed source | cold source x executor policy (FIFO queue | any ready task may run next) x script of emit/complete/error/run-task-#k/advance/jump, then quiescence under the same policy; non-trivial = a run decision had >=2 ready tasks or the clock jumped over >=2 deadlines; thread case = observe_on_threads / delay_threads over a hot source driven by an emitting thread (<=6 emits / sleeps, then complete / error / nothing) or over from_iter(1..=n) subscribed by the caller thread (a source that asks is_finished() between items) against one pool worker that takes ready tasks in wake order, under a seeded lock-level schedule",
     assumptions: vec!["the any-ready-task policy is the sequential abstraction of a multi-worker pool (tasks never run in parallel here; the thread-mode arm of C10 covers that)"],
   }
 }
@@ -549,6 +549,11 @@ pub struct TCase {
   /// 0 = no terminal, 1 = complete, 2 = error
   terminal: u8,
   sched: crate::threadsim::SchedSpec,
+  /// n > 0: instead of the hot source, the caller thread subscribes
+  /// `from_iter(1..=n)` - a source that asks `is_finished()` between items -
+  /// while the worker is already delivering; it completes by itself
+  #[serde(default)]
+  cold: usize,
 }
 
 pub struct C07Threads;
@@ -571,12 +576,13 @@ impl Scenario for C07Threads {
       1 => Strategy::Seq { den: 3 },
       _ => Strategy::Pct { d: rng.range(1, 3) as u8, k: 60 },
     };
-    serde_json::to_value(TCase { delay_100us: *rng.pick(&[0u32, 0, 3, 10, 20]), script, terminal: rng.below(3) as u8, sched: SchedSpec::Seeded { seed: rng.next_u64(), strategy } }).unwrap()
+    let cold = if rng.chance(1, 4) { rng.range(2, 6) } else { 0 };
+    serde_json::to_value(TCase { delay_100us: *rng.pick(&[0u32, 0, 3, 10, 20]), script, terminal: if cold > 0 { 1 } else { rng.below(3) as u8 }, sched: SchedSpec::Seeded { seed: rng.next_u64(), strategy }, cold }).unwrap()
   }
   fn run(&self, case: &Value) -> Result<Outcome, String> {
     use crate::threadsim::*;
     let case: TCase = serde_json::from_value(case.clone()).map_err(|e| e.to_string())?;
-    if case.script.len() > 10 || case.terminal > 2 || case.delay_100us > 1000 {
+    if case.script.len() > 10 || case.terminal > 2 || case.delay_100us > 1000 || case.cold > 12 || (case.cold > 0 && case.terminal != 1) {
       return Err("bad shape".into());
     }
     let shr = Shared::new();
@@ -584,6 +590,7 @@ impl Scenario for C07Threads {
     let log = ProbeLog::new(true);
     let p = Probe(log.clone());
     let hot = SubjectThreads::<Val, E>::default();
+    let p_cold = Probe(log.clone());
     let ts = TSim::new(shr.clone(), &case.sched, 1, 1, 40_000);
     ts.fifo_tasks.store(true, SeqCst);
     let s = shared_sched();
@@ -600,7 +607,26 @@ impl Scenario for C07Threads {
     let emitted = std::sync::Arc::new(std::sync::Mutex::new(Vec::<(i64, u64)>::new()));
     let term_at = std::sync::Arc::new(std::sync::Mutex::new(None::<u64>));
     let mut bodies: Vec<Body> = Vec::new();
-    {
+    let cold_sub: std::sync::Arc<std::sync::Mutex<Option<Box<dyn std::any::Any + Send>>>> = Default::default();
+    if case.cold > 0 {
+      let n = case.cold as i64;
+      let emitted = emitted.clone();
+      let term_at = term_at.clone();
+      let cold_sub = cold_sub.clone();
+      let d0 = case.delay_100us == 0;
+      bodies.push(Box::new(move || {
+        let t0 = shared().now();
+        *emitted.lock().unwrap() = (1..=n).map(|i| (i, t0)).collect();
+        *term_at.lock().unwrap() = Some(t0);
+        let src = observable::from_iter((1..=n).map(|i| {
+          harness_yield("between-items");
+          Val::I(i)
+        }))
+        .on_error_map(|_| 0);
+        let sub: Box<dyn std::any::Any + Send> = if d0 { Box::new(src.observe_on_threads(shared_sched()).actual_subscribe(p_cold)) } else { Box::new(src.delay_threads(delay, shared_sched()).actual_subscribe(p_cold)) };
+        *cold_sub.lock().unwrap() = Some(sub);
+      }));
+    } else {
       let mut hot = hot.clone();
       let script = case.script.clone();
       let terminal = case.terminal;
@@ -636,7 +662,7 @@ impl Scenario for C07Threads {
     let recs = log.records();
     let got: Vec<Ev> = recs.iter().map(|r| r.ev.clone()).collect();
     let em = emitted.lock().unwrap().clone();
-    let site = format!("{} (threads, one FIFO worker)", if case.delay_100us == 0 { "ObserveOn" } else { "Delay" });
+    let site = format!("{} (threads, one FIFO worker{})", if case.delay_100us == 0 { "ObserveOn" } else { "Delay" }, if case.cold > 0 { ", cold source" } else { "" });
     let d_ns = case.delay_100us as u64 * 100_000;
     let mut violation: Option<Violation> = None;
     let mut bad = |rule: &str, detail: String| {
@@ -703,6 +729,7 @@ impl Scenario for C07Threads {
     let sim = shr.now();
     let _ = std::panic::catch_unwind(std::panic::AssertUnwindSafe(|| {
       drop(sub);
+      drop(cold_sub);
       drop(hot);
       drop(w);
     }));
